@@ -95,7 +95,9 @@ def run_output_vcf(case):
     nal = 2 * len(refs)
     alleles = ["A"] + ALT[: nal - 1]
     variants = [(v[0], v[1], v[2], alleles) for v in case["variants"]]
-    data = [[(2 * i, 2 * i + 1, 1) for _ in variants] for i in range(len(refs))]
+    # reference haplotype (i,k) carries allele (2i+k + j) mod nal at the j-th variant of the panel: every output
+    # genotype identifies both its source haplotype and the reference column it was read from
+    data = [[((2 * i + j) % nal, (2 * i + 1 + j) % nal, 1) for j in range(len(variants))] for i in range(len(refs))]
     if case["fmt_in"] == "pgen":
         GF.write_pgen(d / "ref", refs, variants, data)
         ref_file = str(d / "ref.pgen")
@@ -228,7 +230,9 @@ def model_obs(case, resp):
         return {"gts": None}
     hs = resp["haps"]
     nv = len(hs[0]) if hs else 0
-    gts = [[[hs[2 * s][j][0], hs[2 * s + 1][j][0]] for s in range(len(hs) // 2)] for j in range(nv)]
+    nal = 2 * len(case["refs"])
+    shift = [case["variants"].index(v) for v in kept_variants(case)]
+    gts = [[[(hs[2 * s][j][0] + shift[j]) % nal, (hs[2 * s + 1][j][0] + shift[j]) % nal] for s in range(len(hs) // 2)] for j in range(nv)]
     pops = [[[case["pops"][hs[2 * s + k][j][3] - 1] for k in (0, 1)] for s in range(len(hs) // 2)] for j in range(nv)]
     return {"gts": gts, "pops": pops}
 
@@ -271,11 +275,13 @@ def oracle(case, obs):
     used = {}
     for j, v in enumerate(kv):
         c = cnum(v[1][pre:])
+        shift = case["variants"].index(v)
         for s in range(nsim):
             for k in (0, 1):
                 a = obs["gts"][j][s][k]
                 if not (0 <= a < nal):
                     return f"genotype {a} at {v[1]}:{v[2]} sample {s} strand {k} is not an allele of any reference haplotype (stale or uninitialised value)"
+                a = (a - shift) % nal  # the reference haplotype carrying that allele at this variant
                 src, st = case["refs"][a // 2], a % 2
                 lab = label_at(case["haps"][2 * s + k], c, v[2])
                 if lab is None:
@@ -303,7 +309,7 @@ def oracle(case, obs):
         for j in range(len(kv)):
             for s in range(nsim):
                 for k in (0, 1):
-                    a = obs["gts"][j][s][k]
+                    a = (obs["gts"][j][s][k] - case["variants"].index(kv[j])) % nal
                     if (a, j) in seen:
                         return f"--no_replacement: reference haplotype {a} supplies variant {kv[j][1]}:{kv[j][2]} to both {seen[(a, j)]} and {(s, k)}"
                     seen[(a, j)] = (s, k)
@@ -345,7 +351,7 @@ CHECK = Check(
             setup=setup,
             teardown=teardown,
             nontrivial=lambda c, o: C.jdump(c) if isinstance(o, dict) and "gts" in o and len(o["gts"]) > 1 else None,
-            rule="hand-built breakpoint sets (1-3 simulated samples, 1-3 chromosomes incl. X, 1-4 blocks per chromosome with ends on a grid, closed by the sentinel) over identifiable panels (reference haplotype (i,k) carries the unique allele index 2i+k at every multi-allelic variant), variants on block ends, ends+1, position 1 and far beyond the map, with/without chr prefix, panels holding more chromosomes than requested, samples of unused populations, optional region, all four POP/SAMPLE flag combinations, with and without replacement, VCF.gz or PGEN input, VCF / VCF.gz / BCF / PGEN output read back with pysam / pgenlib; the recorded per-block choices are replayed into the Lean loop model and the whole genotype (and POP) matrix is compared",
+            rule="hand-built breakpoint sets (1-3 simulated samples, 1-3 chromosomes incl. X, 1-4 blocks per chromosome with ends on a grid, closed by the sentinel) over identifiable panels (reference haplotype (i,k) carries the unique allele index (2i+k+j) mod 2n at the j-th multi-allelic variant, so every output genotype identifies its source haplotype and the reference column it was read from), variants on block ends, ends+1, position 1 and far beyond the map, with/without chr prefix, panels holding more chromosomes than requested, samples of unused populations, optional region, all four POP/SAMPLE flag combinations, with and without replacement, VCF.gz or PGEN input, VCF / VCF.gz / BCF / PGEN output read back with pysam / pgenlib; the recorded per-block choices are replayed into the Lean loop model and the whole genotype (and POP) matrix is compared",
         ),
     ],
     trusted=["numpy searchsorted/insert/diff/repeat contracts (exercised)", "pysam / pgenlib writing what they are given; cyvcf2 / pgenlib reading the panel (C07/C08)", "_convert_haplotype's recorded outputs are the tape of the run (its choices are checked against the sample-info populations by the oracle)"],
